@@ -431,7 +431,7 @@ struct Ctx {
   }
 
   void Note(const char* fmt, ...) __attribute__((format(printf, 2, 3))) {
-    if (!want_sample || note_len + 2 >= sizeof note) {
+    if ((!want_sample && !g_cfg.one) || note_len + 2 >= sizeof note) {
       return;
     }
     va_list ap;
@@ -439,6 +439,10 @@ struct Ctx {
     int n = std::vsnprintf(note + note_len, sizeof note - note_len, fmt, ap);
     va_end(ap);
     if (n > 0) {
+      if (g_cfg.one) {
+        std::fprintf(stdout, "NOTE %s\n", note + note_len);
+        std::fflush(stdout);
+      }
       note_len += static_cast<std::size_t>(n);
       if (note_len >= sizeof note) {
         note_len = sizeof note - 1;
